@@ -14,7 +14,7 @@ import (
 type Pseudo struct {
 	Disp  string `json:"d,omitempty"` // specified display; "" = initial (inline)
 	Float string `json:"f,omitempty"` // "", left, right
-	Tok  string `json:"t"`           // content string (a unique token)
+	Tok   string `json:"t"`           // content string (a unique token)
 }
 
 // Node is an element, or a text node when Tag == "#text".
